@@ -106,6 +106,15 @@ Theorem C20_refuted_variants :
             (spec_run false [SStart; SStop; SStart; SStop]) <> [].
 Proof. repeat split; vm_compute; try reflexivity; discriminate. Qed.
 
+(* stop() called while the main thread is busy in a request handler: with the join the call is still
+   blocked when the handler is released (the model says stop() MUST wait); without it stop() returns while
+   the thread is alive *)
+Example C20_stop_while_handler_blocks :
+  tseq cur init [SStart; SStopBusy; SStart; SRequest] = spec_run false [SStart; SStopBusy; SStart; SRequest] /\
+  seq_holds [SStart; SStopBusy] (tseq no_join init [SStart; SStopBusy]) (spec_run false [SStart; SStopBusy])
+    = ["stop_releases"%string; "stop_waits_for_main_thread"%string].
+Proof. split; vm_compute; reflexivity. Qed.
+
 (* non-vacuity: concrete non-trivial valid cases and what the model does on them *)
 Example C20_nonvacuous_seq :
   run_model (Seq Tftp [SStart; SRequest; STick; SStop; SRequest; SStart; SRequest]) =
